@@ -74,6 +74,12 @@ PRETTY = {"dummy": "create_dummy_in_mem_geff", "mock": "create_mock_geff", "crea
           "create_simple3d": "create_simple_3d_geff", "create_temporal": "create_simple_temporal_geff", "create_empty": "create_empty_geff",
           "GeffReader": "GeffReader (init, read_*_props, build)"}
 PROPS = sorted({p for ps in FUNCTIONS.values() for p in ps})
+REPLAYABLE = {"C07", "C11", "C12", "C13", "C14", "C17", "C19", "C20"}
+# functions that call no other harvested function: a test that replaces some OTHER geff function by a mock leaves them genuine
+LEAVES = {"serialize_vlen_property_data", "deserialize_vlen_property_data", "construct_var_len_props", "validate_unique_node_ids",
+          "validate_nodes_for_edges", "validate_no_self_edges", "validate_no_repeated_edges", "validate_sphere", "validate_ellipsoid",
+          "validate_tracklets", "validate_lineages", "has_valid_seg_id", "axes_match_seg_dims", "graph_is_in_seg_bounds",
+          "has_seg_ids_at_time_points", "has_seg_ids_at_coords"}
 
 
 # ----------------------------------------------------------------------------------------------------------------
@@ -216,18 +222,15 @@ def sphere_case(values, missing):
     if v.dtype.kind not in "iuf":
         raise Skip("radius dtype is not numeric")
     n = v.shape[0] if v.ndim else 0
-    if v.ndim == 1:
-        vals, _ = scaled_ints(v.tolist())
-        shape = [n]
-    elif v.ndim == 2 and v.shape[1] == 2:
-        flat, _ = scaled_ints(v.ravel().tolist())
-        vals, shape = flat, [n, 2]
-    else:
-        raise Skip("radius array of a rank / width the driver does not encode")
+    if v.ndim == 0:
+        raise Skip("0-d radius")
+    # rank 1: the radii; any other rank: only the rank enters the model (the driver prints every second entry as don't-care rows)
+    vals, _ = scaled_ints(v.ravel().tolist())
+    shape = [int(x) for x in v.shape]
     return {"shape": shape, "vals": vals, "float": v.dtype.kind == "f", "missing": None if missing is None else [bool(b) for b in missing]}
 
 
-def ellipsoid_case(values, missing):
+def ellipsoid_case(values, missing, axes=None):
     from harness import c12
 
     v = np.asarray(values)
@@ -238,11 +241,13 @@ def ellipsoid_case(values, missing):
     flat, _ = scaled_ints(v.ravel().tolist())
     arr = np.array(flat, dtype=object).reshape(v.shape)
     mats = arr.tolist()
-    if v.ndim == 3:
-        for m in mats:
-            if len(m) == len(m[0]) if m else False:
-                if c12.ambiguous(m):
-                    raise Skip("covariance matrix on the boundary of the positive-definite cone (outside the claim)")
+    nspace = sum(1 for t in (axes or []) if t == "space")
+    miss = [False] * v.shape[0] if missing is None else [bool(b) for b in missing]
+    if v.ndim == 3 and v.shape[1] == v.shape[2] == nspace and nspace > 0:
+        present = [m for m, ms in zip(mats, miss) if not ms]
+        if all(c12.is_sym(m) for m in present) and any(c12.ambiguous(m) for m in present):
+            # every earlier test passes, so the verdict hangs on eigenvalues that are exactly zero
+            raise Skip("covariance matrix on the boundary of the positive-definite cone (outside the claim: 'clearly inside or outside')")
     return {"shape": list(v.shape), "mats": mats, "missing": None if missing is None else [bool(b) for b in missing]}
 
 
@@ -274,7 +279,7 @@ def conv_validate_data(rec):
         if md["ellipsoid"] not in props:
             raise Skip("declared ellipsoid property is absent")
         p = props[md["ellipsoid"]]
-        c["ellipsoid"] = ellipsoid_case(p["values"], p["missing"])
+        c["ellipsoid"] = ellipsoid_case(p["values"], p["missing"], axes_types(md))
     tnp = md.get("track_node_props")
     if tnp:
         tr = {}
@@ -312,7 +317,7 @@ def conv_ellipsoid(rec):
     axes = a["axes"]
     if axes is not None and not all(isinstance(x, Model) for x in axes):
         raise Skip("axes are not Axis objects")
-    e = ellipsoid_case(a["covariance"], None)
+    e = ellipsoid_case(a["covariance"], None, [x.get("type") for x in (axes or [])])
     n = e["shape"][0]
     c = {"kind": "data", "cfg": [False, False, True, False, False], "directed": True, "dt": "uint64", "ids": list(range(n)), "edges": [],
          "axes": [x.get("type") for x in (axes or [])], "sphere": None, "ellipsoid": e, "track": None}
@@ -622,7 +627,7 @@ def conv_frames(rec):
         return out
 
     c = {"kind": "frames", "ids": [int(x) for x in ids.tolist()], "id_dtype": common.dtype_name(ids.dtype),
-         "edges": [[int(x), int(y)] for x, y in edges.tolist()], "nprops": props(g["nprops"]), "eprops": props(g["eprops"]), "zf": 0}
+         "edges": [[int(x), int(y)] for x, y in edges.tolist()], "nprops": props(g["nprops"]), "eprops": props(g["eprops"]), "zf": 2}
     if "exc" in rec["out"]:
         o = {"res": "err", "exc": rec["out"]["exc"], "msg": rec["out"].get("msg"), "order": g["order"]}
     else:
@@ -653,7 +658,7 @@ def c20_extras(x):
     elif isinstance(x, dict):
         pairs = list(x.items())
     else:
-        raise Skip("extra properties of an unexpected type")
+        return [], "list"   # any non-dict is refused alike (isinstance(..., dict)); the driver's spelling of a non-dict is "list"
     items = []
     for k, v in pairs:
         name = k if isinstance(k, str) else ({"key": int(k)} if isinstance(k, int) and not isinstance(k, bool) else None)
@@ -1177,7 +1182,7 @@ def convert_all(recs, props=None):
             st["plugin_errors"] += 1
             st["skipped"]["plugin error: " + r["plugin_error"][:80]] += 1
             continue
-        if r.get("mocked"):
+        if r.get("mocked") and fn not in LEAVES:
             st["skipped"]["the test replaced geff internals by mocks (" + ", ".join(x.rsplit(".", 1)[-1] for x in r["mocked"][:2]) + "): not geff's own code"] += 1
             continue
         if r.get("out", {}).get("warning_as_error"):
@@ -1269,8 +1274,13 @@ def evaluate(prop, its, known=None, report=True):
         if key in reported:
             continue
         reported.add(key)
-        path = common.write_replay(prop, {"property": prop, "kind": "failing-input", "what": f.what, "tags": f.tags, "input": f.inp,
+        # cases of the pure-function drivers are in generator format and can be re-run by `--replay`; the store-side ones are
+        # observations of a store state that existed inside a test (the replay prints them)
+        replayable = prop in REPLAYABLE
+        path = common.write_replay(prop, {"property": prop, "kind": "failing-input" if replayable else "harvested-failing-observation",
+                                          "what": f.what, "tags": f.tags, "input": f.inp,
                                           "observed": f.obs, "harvested_from": {"function": it["fn"], "test": it["test"]},
+                                          "term": it["term"][:20000],
                                           "replay_cmd": f"./check {prop} --replay <this file>"})
         print(f"VIOLATION property={prop} replay={path}")
         res["violations"] += 1
@@ -1339,7 +1349,8 @@ def main(rerun=False, props=None, table=None) -> int:
           f"plugin={sess.get('plugin_seconds')}s dir={d}")
     if sess.get("returncode") != 0:
         print(sess.get("tail", "")[-1500:])
-        raise HarnessError("the repository's test suite does not pass with the plugin loaded")
+        if os.environ.get("HARVEST_ALLOW_FAIL") != "1":  # sensitivity runs on a modified repository go on with what was recorded
+            raise HarnessError("the repository's test suite does not pass with the plugin loaded")
     recs = load_records(d)
     items, stats = convert_all(recs, props=props)
     todo = [p for p in PROPS if props is None or p in props]
@@ -1371,6 +1382,12 @@ def main(rerun=False, props=None, table=None) -> int:
         print(f"  {PRETTY.get(f, f):45s} calls={st['calls']:5d} encodable={st['encodable']:5d} tests={len(st['tests']):4d}")
         for k, v in st["skipped"].most_common(8):
             print(f"      skipped {v:4d}: {k}")
+    if props is None:
+        (HARVEST / "last_summary.json").write_text(json.dumps({
+            "suite": {k: sess.get(k) for k in ("cmd", "returncode", "wall_s", "records", "plugin_seconds", "testscollected")},
+            "properties": {p: {"functions": {f: {"calls": stats[f]["calls"], "encodable": stats[f]["encodable"]} for f in fns if f in stats},
+                               **{k: res[k] for k in ("cases", "distinct", "mismatches", "oracle_failures", "oracle_judged", "violations")}}
+                           for p, fns, res in rows}}, indent=1))
     if table:
         write_table(Path(table), stats, rows, sess)
     print(f"[harvest] wall={time.time() - t0:.1f}s exit={exit_code}")
